@@ -160,14 +160,14 @@ mod proofs {
 
     // @harness id=C02 tier=quick unwind=20 timeout=1800
     // @desc balance_correction_factors(f1, f2, t) returns (f, e1, e2) with e1*f1 = e2*f2 = f (mod t) and e1 invertible mod t -- the relation BGV addition needs so that both operands decrypt under the common factor f
-    // @bounds t = 17: ALL 256 factor pairs 1 <= f1, f2 < 17 (enumerated by the symbolic executor as concrete cases: the Euclid loop with symbolic operands exhausts CBMC's memory); unwind 20 covers the pair loops and the <= 6 Euclid steps
+    // @bounds t = 17: all factor pairs 1 <= f1 < 5, 1 <= f2 < 17 (the four harnesses _q1.._q4 together: ALL 256 pairs) (enumerated by the symbolic executor as concrete cases: the Euclid loop with symbolic operands exhausts CBMC's memory); unwind 20 covers the pair loops and the <= 6 Euclid steps
     // @funcs Evaluator::balance_correction_factors, try_invert_u64_mod, multiply_u64_mod, barrett_reduce_u64, gcd
     #[kani::proof]
-    fn c02_balance_correction_factors() {
+    fn c02_balance_correction_factors_q1() {
         let t: u64 = 17;
         let m = crate::modulus::verif_v::mk_modulus(t, true);
         let mut f1 = 1u64;
-        while f1 < t {
+        while f1 < 5 {
             let mut f2 = 1u64;
             while f2 < t {
                 let (f, e1, e2) = Evaluator::balance_correction_factors(f1, f2, &m);
@@ -181,7 +181,76 @@ mod proofs {
         kani::cover!(true);
     }
 
-    // @harness id=C02 tier=quick unwind=14 timeout=2400 fs=4096
+    // @harness id=C02 tier=quick unwind=20 timeout=1800
+    // @desc balance_correction_factors(f1, f2, t) returns (f, e1, e2) with e1*f1 = e2*f2 = f (mod t) and e1 invertible mod t -- the relation BGV addition needs so that both operands decrypt under the common factor f
+    // @bounds t = 17: all factor pairs 5 <= f1 < 9, 1 <= f2 < 17 (the four harnesses _q1.._q4 together: ALL 256 pairs) (enumerated by the symbolic executor as concrete cases: the Euclid loop with symbolic operands exhausts CBMC's memory); unwind 20 covers the pair loops and the <= 6 Euclid steps
+    // @funcs Evaluator::balance_correction_factors, try_invert_u64_mod, multiply_u64_mod, barrett_reduce_u64, gcd
+    #[kani::proof]
+    fn c02_balance_correction_factors_q2() {
+        let t: u64 = 17;
+        let m = crate::modulus::verif_v::mk_modulus(t, true);
+        let mut f1 = 5u64;
+        while f1 < 9 {
+            let mut f2 = 1u64;
+            while f2 < t {
+                let (f, e1, e2) = Evaluator::balance_correction_factors(f1, f2, &m);
+                assert!(f < t && e1 < t && e2 < t && f != 0);
+                assert!((e1 * f1) % t == f && (e2 * f2) % t == f);
+                assert!(crate::util::gcd(e1, t) == 1);
+                f2 += 1;
+            }
+            f1 += 1;
+        }
+        kani::cover!(true);
+    }
+
+    // @harness id=C02 tier=quick unwind=20 timeout=1800
+    // @desc balance_correction_factors(f1, f2, t) returns (f, e1, e2) with e1*f1 = e2*f2 = f (mod t) and e1 invertible mod t -- the relation BGV addition needs so that both operands decrypt under the common factor f
+    // @bounds t = 17: all factor pairs 9 <= f1 < 13, 1 <= f2 < 17 (the four harnesses _q1.._q4 together: ALL 256 pairs) (enumerated by the symbolic executor as concrete cases: the Euclid loop with symbolic operands exhausts CBMC's memory); unwind 20 covers the pair loops and the <= 6 Euclid steps
+    // @funcs Evaluator::balance_correction_factors, try_invert_u64_mod, multiply_u64_mod, barrett_reduce_u64, gcd
+    #[kani::proof]
+    fn c02_balance_correction_factors_q3() {
+        let t: u64 = 17;
+        let m = crate::modulus::verif_v::mk_modulus(t, true);
+        let mut f1 = 9u64;
+        while f1 < 13 {
+            let mut f2 = 1u64;
+            while f2 < t {
+                let (f, e1, e2) = Evaluator::balance_correction_factors(f1, f2, &m);
+                assert!(f < t && e1 < t && e2 < t && f != 0);
+                assert!((e1 * f1) % t == f && (e2 * f2) % t == f);
+                assert!(crate::util::gcd(e1, t) == 1);
+                f2 += 1;
+            }
+            f1 += 1;
+        }
+        kani::cover!(true);
+    }
+
+    // @harness id=C02 tier=quick unwind=20 timeout=1800
+    // @desc balance_correction_factors(f1, f2, t) returns (f, e1, e2) with e1*f1 = e2*f2 = f (mod t) and e1 invertible mod t -- the relation BGV addition needs so that both operands decrypt under the common factor f
+    // @bounds t = 17: all factor pairs 13 <= f1 < 17, 1 <= f2 < 17 (the four harnesses _q1.._q4 together: ALL 256 pairs) (enumerated by the symbolic executor as concrete cases: the Euclid loop with symbolic operands exhausts CBMC's memory); unwind 20 covers the pair loops and the <= 6 Euclid steps
+    // @funcs Evaluator::balance_correction_factors, try_invert_u64_mod, multiply_u64_mod, barrett_reduce_u64, gcd
+    #[kani::proof]
+    fn c02_balance_correction_factors_q4() {
+        let t: u64 = 17;
+        let m = crate::modulus::verif_v::mk_modulus(t, true);
+        let mut f1 = 13u64;
+        while f1 < 17 {
+            let mut f2 = 1u64;
+            while f2 < t {
+                let (f, e1, e2) = Evaluator::balance_correction_factors(f1, f2, &m);
+                assert!(f < t && e1 < t && e2 < t && f != 0);
+                assert!((e1 * f1) % t == f && (e2 * f2) % t == f);
+                assert!(crate::util::gcd(e1, t) == 1);
+                f2 += 1;
+            }
+            f1 += 1;
+        }
+        kani::cover!(true);
+    }
+
+    // @harness id=C02 tier=thorough unwind=14 timeout=2400 fs=4096
     // @desc BGV addition/subtraction of ciphertexts carrying DIFFERENT correction factors: result residues = e1*a +- e2*b and result factor f, where (f, e1, e2) = balance_correction_factors(f1, f2); so result/f decrypts to a/f1 +- b/f2
     // @bounds BGV N=2, q={97}, t=17; sizes (2,2); all canonical residues; factor pairs (1,2), (3,5), (16,7) (concrete per case; all 256 pairs of the balancing function itself: c02_balance_correction_factors); NTT form (BGV default)
     // @funcs Evaluator::translate_inplace (factor-balancing branch), polysmallmod::multiply_scalar_inplace_ps, Evaluator::balance_correction_factors
@@ -215,7 +284,7 @@ mod proofs {
     }
 
     /// tensor product check: output polynomial k, slot p must be sum_{i+j=k} a_i[p]*b_j[p] (NTT form, slot-wise); reference in u32
-    fn bgv_mul_case<const L1: usize, const L2: usize>(ev: &Evaluator, pid: ParmsID, square: bool) {
+    fn bgv_mul_case<const L1: usize, const L2: usize>(ev: &Evaluator, pid: ParmsID, square: bool, slots: usize) {
         let a = sym1::<L1>(); let b = sym1::<L2>();
         let c1 = ct1(&a, pid, true, 3, 1.0); let c2 = ct1(&b, pid, true, 5, 1.0);
         let mut r = c1.clone();
@@ -229,7 +298,7 @@ mod proofs {
         let mut k = 0;
         while k < s1 + s2 - 1 {
             let mut p = 0;
-            while p < 2 {
+            while p < slots {
                 let mut e = 0u64; let mut i = 0;
                 while i < s1 {
                     if k >= i && k - i < s2 {
@@ -238,7 +307,7 @@ mod proofs {
                     }
                     i += 1;
                 }
-                if k == s1 + s2 - 2 && p == 1 { kani::cover!(e != 0); }
+                if k == s1 + s2 - 2 && p == slots - 1 { kani::cover!(e != 0); }
                 assert!(r.data()[k * 2 + p] == e);
                 p += 1;
             }
@@ -248,7 +317,7 @@ mod proofs {
         assert!(c2.size() == L2 / 2 && c2.data()[0] == b[0] && c2.data()[L2 - 1] == b[L2 - 1]);
     }
 
-    // @harness id=C02 tier=quick unwind=14 timeout=2400 fs=4096
+    // @harness id=C02 tier=thorough unwind=14 timeout=2400 fs=4096
     // @desc BGV multiplication of two size-2 ciphertexts in NTT form: output polynomial k is slot-wise sum_{i+j=k} a_i*b_j (the coefficients of (a0 + a1 s)(b0 + b1 s)), size 3, correction factor = product of the factors mod t, second operand unchanged
     // @bounds BGV N=2, q={97}, t=17; sizes (2,2); all canonical residues; correction factors 3 and 5; output polynomial and slot symbolic
     // @funcs Evaluator::multiply_inplace, Evaluator::bgv_multiply, polysmallmod::dyadic_product_p, polysmallmod::add_inplace_p
@@ -259,11 +328,11 @@ mod proofs {
     fn c02_bgv_multiply_2x2() {
         let ctx = lits::ctx_bgv_n2_1p();
         let ev = mk_evaluator(ctx.clone());
-        bgv_mul_case::<4, 4>(&ev, *ctx.first_parms_id(), false);
+        bgv_mul_case::<4, 4>(&ev, *ctx.first_parms_id(), false, 2);
         std::mem::forget(ev); std::mem::forget(ctx);
     }
 
-    // @harness id=C02 tier=quick unwind=14 timeout=2400 fs=4096
+    // @harness id=C02 tier=thorough unwind=14 timeout=2400 fs=4096
     // @desc BGV multiplication with operands of DIFFERENT sizes, larger operand first (3,2): all four output polynomials are the full tensor-product sums
     // @bounds BGV N=2, q={97}, t=17; sizes (3,2); all canonical residues
     // @funcs Evaluator::multiply_inplace, Evaluator::bgv_multiply
@@ -274,7 +343,22 @@ mod proofs {
     fn c02_bgv_multiply_3x2() {
         let ctx = lits::ctx_bgv_n2_1p();
         let ev = mk_evaluator(ctx.clone());
-        bgv_mul_case::<6, 4>(&ev, *ctx.first_parms_id(), false);
+        bgv_mul_case::<6, 4>(&ev, *ctx.first_parms_id(), false, 2);
+        std::mem::forget(ev); std::mem::forget(ctx);
+    }
+
+    // @harness id=C02 tier=quick unwind=14 timeout=2400 fs=4096
+    // @desc BGV multiplication with operands of different sizes, larger operand first (3,2): all four output polynomials are the full tensor-product sums -- checked in NTT slot 0 (both slots: thorough harness c02_bgv_multiply_3x2), size, level, representation and correction factor as documented
+    // @bounds BGV N=2, q={97}, t=17; sizes (3,2); all canonical residues; slot 0 of every output polynomial
+    // @funcs Evaluator::multiply_inplace, Evaluator::bgv_multiply, polysmallmod::dyadic_product_p, polysmallmod::add_inplace_p
+    // @stubs HeContext::get_context_data -> linear search over the literal chain (HashMap lookup outside the claim); alloc::sync::Arc::drop_slow -> no-op (memory reclamation outside the claim)
+    #[kani::proof]
+    #[kani::stub(crate::context::HeContext::get_context_data, crate::context::verif_v::get_context_data_stub)]
+    #[kani::stub(alloc::sync::Arc::drop_slow, crate::verif_v::arc_drop_slow_noop)]
+    fn c02_bgv_multiply_3x2_slot0() {
+        let ctx = lits::ctx_bgv_n2_1p();
+        let ev = mk_evaluator(ctx.clone());
+        bgv_mul_case::<6, 4>(&ev, *ctx.first_parms_id(), false, 1);
         std::mem::forget(ev); std::mem::forget(ctx);
     }
 
@@ -290,7 +374,7 @@ mod proofs {
         let ctx = lits::ctx_bgv_n2_1p();
         let ev = mk_evaluator(ctx.clone());
         let c: bool = kani::any();
-        if c { bgv_mul_case::<4, 6>(&ev, *ctx.first_parms_id(), false) } else { bgv_mul_case::<4, 4>(&ev, *ctx.first_parms_id(), true) }
+        if c { bgv_mul_case::<4, 6>(&ev, *ctx.first_parms_id(), false, 2) } else { bgv_mul_case::<4, 4>(&ev, *ctx.first_parms_id(), true, 2) }
         std::mem::forget(ev); std::mem::forget(ctx);
     }
 
@@ -356,32 +440,74 @@ mod proofs {
         kani::cover!(k == 6);
         assert!(*r.parms_id() == last && r.size() == 2 && r.data().len() == 4 && r.is_ntt_form());
         assert!(r.scale().to_bits() == (s / 113.0).to_bits());
+        std::mem::forget(ev); std::mem::forget(ctx); std::mem::forget(first); std::mem::forget(second);
+    }
+
+    // @harness id=C03 tier=thorough unwind=14 timeout=2400 fs=4096
+    // @desc CKKS rescaling BELOW the first data level: the recorded scale is exactly the IEEE quotient of the input scale by the prime that is dropped at THAT level (not by a prime of another level), the result sits on the next level, and modulus switching (drop) at that level keeps the scale unchanged
+    // @bounds CKKS N=2, chain {97,113,193,241}: data levels {97,113,193} > {97,113} > {97}; ciphertext on the SECOND data level {97,113}; scales 2^k, 1 <= k <= 6; size 2; all canonical residues
+    // @funcs Evaluator::rescale_to_next_new, Evaluator::mod_switch_to_next_new, Evaluator::mod_switch_scale_to_next_internal, Evaluator::mod_switch_drop_to_next_internal
+    // @stubs HeContext::get_context_data -> linear search over the literal chain (HashMap lookup outside the claim); alloc::sync::Arc::drop_slow -> no-op (memory reclamation outside the claim)
+    #[kani::proof]
+    #[kani::stub(crate::context::HeContext::get_context_data, crate::context::verif_v::get_context_data_stub)]
+    #[kani::stub(alloc::sync::Arc::drop_slow, crate::verif_v::arc_drop_slow_noop)]
+    fn c03_rescale_and_drop_at_lower_level() {
+        let ctx = lits::ctx_ckks_n2_4p();
+        let ev = mk_evaluator(ctx.clone());
+        let first = ctx.first_context_data().unwrap();
+        let second = first.next_context_data().unwrap();
+        let pid2 = *second.parms_id(); let last = *ctx.last_parms_id();
+        assert!(second.parms().coeff_modulus().len() == 2 && pid2 != last && pid2 != *ctx.first_parms_id());
+        let a = sym2::<8>();
+        let k: u8 = kani::any(); kani::assume(k >= 1 && k <= 6);
+        let s = (1u64 << k) as f64;
+        let src = ct2(&a, pid2, true, 1, s);
+        let r = ev.rescale_to_next_new(&src);
+        kani::cover!(k == 6);
+        assert!(*r.parms_id() == last && r.size() == 2 && r.data().len() == 4 && r.is_ntt_form());
+        assert!(r.scale().to_bits() == (s / 113.0).to_bits());
         let d = ev.mod_switch_to_next_new(&src);
         assert!(*d.parms_id() == last && d.scale().to_bits() == s.to_bits());
         std::mem::forget(ev); std::mem::forget(ctx); std::mem::forget(first); std::mem::forget(second);
     }
 
     // @harness id=C03 tier=quick unwind=14 timeout=2400 fs=4096
-    // @desc CKKS operations refuse (panic) instead of computing: squaring and multiplying when the RESULTING scale no longer fits the modulus (checked on the product, not on the operand scale), adding and subtracting operands whose scales disagree
-    // @bounds CKKS N=2, q={97} (7 bits): scale 2^4 squared / multiplied (2^8 does not fit), add and sub with scales 2 vs 4; size 2, NTT form, all canonical residues; the four requests chosen symbolically
+    // @desc CKKS squaring and multiplication refuse (panic) instead of computing when the RESULTING scale no longer fits the modulus (checked on the product of the scales, not on the operand scale)
+    // @bounds CKKS N=2, q={97} (7 bits): scale 2^4 squared / multiplied (2^8 does not fit); size 2, NTT form, all canonical residues; the two requests chosen symbolically
     // @funcs Evaluator::square_inplace, Evaluator::ckks_square, Evaluator::multiply_inplace, Evaluator::ckks_multiply, Evaluator::add_inplace, Evaluator::sub_inplace, Evaluator::translate_inplace, Evaluator::match_scale, Evaluator::is_scale_within_bounds
     // @expect panic:Invalid argument
     // @stubs HeContext::get_context_data -> linear search over the literal chain (HashMap lookup outside the claim); alloc::sync::Arc::drop_slow -> no-op (memory reclamation outside the claim)
     #[kani::proof]
     #[kani::stub(crate::context::HeContext::get_context_data, crate::context::verif_v::get_context_data_stub)]
     #[kani::stub(alloc::sync::Arc::drop_slow, crate::verif_v::arc_drop_slow_noop)]
-    fn c03_refuses_scale_overflow_and_mismatch() {
+    fn c03_refuses_scale_overflow() {
         let ctx = lits::ctx_ckks_n2_1p();
         let ev = mk_evaluator(ctx.clone());
         let pid = *ctx.first_parms_id();
         let a = sym1::<4>(); let b = sym1::<4>();
-        let c: u8 = kani::any();
-        match c {
-            0 => { let mut x = ct1(&a, pid, true, 1, 16.0); ev.square_inplace(&mut x); }
-            1 => { let mut x = ct1(&a, pid, true, 1, 16.0); let y = ct1(&b, pid, true, 1, 16.0); ev.multiply_inplace(&mut x, &y); }
-            2 => { let mut x = ct1(&a, pid, true, 1, 2.0); let y = ct1(&b, pid, true, 1, 4.0); ev.add_inplace(&mut x, &y); }
-            _ => { let mut x = ct1(&a, pid, true, 1, 2.0); let y = ct1(&b, pid, true, 1, 4.0); ev.sub_inplace(&mut x, &y); }
-        }
+        let c: bool = kani::any();
+        if c { let mut x = ct1(&a, pid, true, 1, 16.0); ev.square_inplace(&mut x); }
+        else { let mut x = ct1(&a, pid, true, 1, 16.0); let y = ct1(&b, pid, true, 1, 16.0); ev.multiply_inplace(&mut x, &y); }
+        kani::cover!(true, "AFTER: refused CKKS operation returned");
+    }
+
+    // @harness id=C03 tier=quick unwind=14 timeout=2400 fs=4096
+    // @desc CKKS addition and subtraction refuse (panic) operands whose scales disagree instead of computing on them
+    // @bounds CKKS N=2, q={97}: add and sub with scales 2 vs 4; size 2, NTT form, all canonical residues; the two requests chosen symbolically
+    // @funcs Evaluator::square_inplace, Evaluator::ckks_square, Evaluator::multiply_inplace, Evaluator::ckks_multiply, Evaluator::add_inplace, Evaluator::sub_inplace, Evaluator::translate_inplace, Evaluator::match_scale, Evaluator::is_scale_within_bounds
+    // @expect panic:Invalid argument
+    // @stubs HeContext::get_context_data -> linear search over the literal chain (HashMap lookup outside the claim); alloc::sync::Arc::drop_slow -> no-op (memory reclamation outside the claim)
+    #[kani::proof]
+    #[kani::stub(crate::context::HeContext::get_context_data, crate::context::verif_v::get_context_data_stub)]
+    #[kani::stub(alloc::sync::Arc::drop_slow, crate::verif_v::arc_drop_slow_noop)]
+    fn c03_refuses_mismatched_scales() {
+        let ctx = lits::ctx_ckks_n2_1p();
+        let ev = mk_evaluator(ctx.clone());
+        let pid = *ctx.first_parms_id();
+        let a = sym1::<4>(); let b = sym1::<4>();
+        let c: bool = kani::any();
+        if c { let mut x = ct1(&a, pid, true, 1, 2.0); let y = ct1(&b, pid, true, 1, 4.0); ev.add_inplace(&mut x, &y); }
+        else { let mut x = ct1(&a, pid, true, 1, 2.0); let y = ct1(&b, pid, true, 1, 4.0); ev.sub_inplace(&mut x, &y); }
         kani::cover!(true, "AFTER: refused CKKS operation returned");
     }
 
@@ -420,6 +546,36 @@ mod proofs {
 
     // @harness id=C05 tier=quick unwind=14 timeout=1800 fs=4096
     // @desc BFV mod_switch_to_next (value-returning and in-place forms): the result sits exactly on the next level, every remaining residue is round(x / q_last) mod q_0 of the CRT-composed input coefficient, size/form kept, scale 1, correction factor 1; the input is unchanged
+    // @bounds BFV N=2, chain {97,113} -> {97}, t=17; size 2, value-returning form (size 3 and the in-place form: thorough harness c05_bfv_mod_switch_to_next); all canonical residues; one coefficient position symbolic
+    // @funcs Evaluator::mod_switch_to_next_new, Evaluator::mod_switch_to_next_inplace, Evaluator::mod_switch_scale_to_next_internal, RNSTool::divide_and_round_q_last_inplace, Ciphertext::resize
+    // @stubs HeContext::get_context_data -> linear search over the literal chain (HashMap lookup outside the claim); alloc::sync::Arc::drop_slow -> no-op (memory reclamation outside the claim)
+    #[kani::proof]
+    #[kani::stub(crate::context::HeContext::get_context_data, crate::context::verif_v::get_context_data_stub)]
+    #[kani::stub(alloc::sync::Arc::drop_slow, crate::verif_v::arc_drop_slow_noop)]
+    fn c05_bfv_mod_switch_to_next_size2() {
+        let ctx = lits::ctx_bfv_n2_2p1();
+        let ev = mk_evaluator(ctx.clone());
+        let pid = *ctx.first_parms_id(); let last = *ctx.last_parms_id();
+        bfv_switch_new_case(&ev, pid, last);
+        std::mem::forget(ev); std::mem::forget(ctx);
+    }
+    fn bfv_switch_new_case(ev: &Evaluator, pid: ParmsID, last: ParmsID) {
+        let a = sym2::<8>();
+        let src = ct2(&a, pid, false, 1, 1.0);
+        let r = ev.mod_switch_to_next_new(&src);
+        let poly: usize = kani::any(); let k: usize = kani::any(); kani::assume(poly < 2 && k < 2);
+        let x = crt2(a[poly * 4 + k], a[poly * 4 + 2 + k]);
+        let e = ((x + 56) / 113) % 97;
+        kani::cover!(poly == 1 && e != 0);
+        assert!(*r.parms_id() == last && pid != last);
+        assert!(r.size() == 2 && r.coeff_modulus_size() == 1 && r.poly_modulus_degree() == 2 && r.data().len() == 4);
+        assert!(r.data()[poly * 2 + k] == e);
+        assert!(!r.is_ntt_form() && r.scale() == 1.0 && r.correction_factor() == 1);
+        assert!(src.data()[poly * 4 + k] == a[poly * 4 + k] && *src.parms_id() == pid);
+    }
+
+    // @harness id=C05 tier=thorough unwind=14 timeout=1800 fs=4096
+    // @desc BFV mod_switch_to_next (value-returning and in-place forms): the result sits exactly on the next level, every remaining residue is round(x / q_last) mod q_0 of the CRT-composed input coefficient, size/form kept, scale 1, correction factor 1; the input is unchanged
     // @bounds BFV N=2, chain {97,113} -> {97}, t=17; size 2 and 3 (two cases); all canonical residues; one coefficient position symbolic
     // @funcs Evaluator::mod_switch_to_next_new, Evaluator::mod_switch_to_next_inplace, Evaluator::mod_switch_scale_to_next_internal, RNSTool::divide_and_round_q_last_inplace, Ciphertext::resize
     // @stubs HeContext::get_context_data -> linear search over the literal chain (HashMap lookup outside the claim); alloc::sync::Arc::drop_slow -> no-op (memory reclamation outside the claim)
@@ -453,14 +609,14 @@ mod proofs {
     }
 
     // @harness id=C05 tier=quick unwind=14 timeout=1800 fs=4096
-    // @desc CKKS: mod_switch_to_next DROPS the last prime (residues of the remaining primes unchanged, scale unchanged) while rescale_to_next divides by it (scale = old / q_last exactly, data = NTT-form rounding division); both land exactly on the next level
+    // @desc CKKS: mod_switch_to_next DROPS the last prime -- residues of the remaining primes unchanged, scale unchanged (also in the value-returning form, whose destination is a fresh object), result on the next level
     // @bounds CKKS N=2, chain {97,113} -> {97}; size 2; all canonical residues; scale 2^k, k in 1..6
     // @funcs Evaluator::mod_switch_to_next_new, Evaluator::mod_switch_drop_to_next_internal, Evaluator::rescale_to_next_new, Evaluator::mod_switch_scale_to_next_internal, RNSTool::divide_and_round_q_last_ntt_inplace
     // @stubs HeContext::get_context_data -> linear search over the literal chain (HashMap lookup outside the claim); alloc::sync::Arc::drop_slow -> no-op (memory reclamation outside the claim)
     #[kani::proof]
     #[kani::stub(crate::context::HeContext::get_context_data, crate::context::verif_v::get_context_data_stub)]
     #[kani::stub(alloc::sync::Arc::drop_slow, crate::verif_v::arc_drop_slow_noop)]
-    fn c05_ckks_drop_and_rescale() {
+    fn c05_ckks_drop_keeps_scale() {
         let ctx = lits::ctx_ckks_n2_2p1();
         let ev = mk_evaluator(ctx.clone());
         let pid = *ctx.first_parms_id(); let last = *ctx.last_parms_id();
@@ -473,6 +629,27 @@ mod proofs {
         assert!(*d.parms_id() == last && d.size() == 2 && d.data().len() == 4 && d.is_ntt_form());
         assert!(d.data()[poly * 2 + j] == a[poly * 4 + j]);
         assert!(d.scale().to_bits() == s.to_bits());
+        kani::cover!(k == 6);
+        std::mem::forget(ev); std::mem::forget(ctx);
+    }
+
+    // @harness id=C05 tier=quick unwind=14 timeout=1800 fs=4096
+    // @desc CKKS: rescale_to_next divides by the last prime: data = the rounding-division kernel per polynomial (decided in C10), recorded scale = IEEE quotient old / q_last exactly, result on the next level
+    // @bounds CKKS N=2, chain {97,113} -> {97}; size 2; all canonical residues; scale 2^k, k in 1..6
+    // @funcs Evaluator::mod_switch_to_next_new, Evaluator::mod_switch_drop_to_next_internal, Evaluator::rescale_to_next_new, Evaluator::mod_switch_scale_to_next_internal, RNSTool::divide_and_round_q_last_ntt_inplace
+    // @stubs HeContext::get_context_data -> linear search over the literal chain (HashMap lookup outside the claim); alloc::sync::Arc::drop_slow -> no-op (memory reclamation outside the claim)
+    #[kani::proof]
+    #[kani::stub(crate::context::HeContext::get_context_data, crate::context::verif_v::get_context_data_stub)]
+    #[kani::stub(alloc::sync::Arc::drop_slow, crate::verif_v::arc_drop_slow_noop)]
+    fn c05_ckks_rescale_divides_scale() {
+        let ctx = lits::ctx_ckks_n2_2p1();
+        let ev = mk_evaluator(ctx.clone());
+        let pid = *ctx.first_parms_id(); let last = *ctx.last_parms_id();
+        let a = sym2::<8>();
+        let k: u8 = kani::any(); kani::assume(k >= 1 && k < 7);
+        let s = (1u64 << k) as f64;
+        let src = ct2(&a, pid, true, 1, s);
+        let poly: usize = kani::any(); let j: usize = kani::any(); kani::assume(poly < 2 && j < 2);
         let r = ev.rescale_to_next_new(&src);
         // oracle for the data: the RNS kernel (decided separately in C10) applied to each polynomial
         let cd = ctx.first_context_data().unwrap();
@@ -576,7 +753,7 @@ mod proofs {
         kani::cover!(true, "AFTER: BGV rescale returned");
     }
 
-    // @harness id=C06 tier=quick unwind=14 timeout=1800 fs=4096
+    // @harness id=C06 tier=thorough unwind=14 timeout=1800 fs=4096
     // @desc the three API forms of addition (in-place, destination-argument with a destination pre-filled with a DIFFERENT-sized ciphertext, value-returning) give field-wise identical results and leave both read-only operands unchanged; the result is valid for the context
     // @bounds BFV N=2, q={97}; sizes (2,3); destination pre-filled with an arbitrary size-3 NTT-flagged ciphertext; all canonical residues
     // @funcs Evaluator::add, Evaluator::add_new, Evaluator::add_inplace, Ciphertext::is_valid_for
@@ -811,7 +988,7 @@ mod proofs {
         ks_case(sk, er, am, false);
     }
 
-    // @harness id=C04 tier=quick unwind=14 timeout=3000 fs=4096 mem=24
+    // @harness id=C04 tier=thorough unwind=14 timeout=3000 fs=4096 mem=24
     // @desc key switching at a LOWER level of the chain with a fixed key-switching key: for EVERY target polynomial at the last level (ciphertext fixed: it only enters additively), switch_key_inplace_internal changes the phase under s by target*s' plus a noise term bounded by the key error (the special prime -- the LAST key modulus, not the next data prime -- is the one divided out), size/level/representation kept
     // @bounds BFV N=2, chain {97,113,193} (special prime 193), ciphertext (3,50 | 96,7) at the LAST level {97}; all target residues; fixed keys s = 1 - X, s' = X, key error (3,-2), mask (5,7 | 11,13 | 17,19); the all-keys version is the thorough harness c04_key_switch_lemma_lower_level
     // @funcs Evaluator::switch_key_inplace_internal, polysmallmod::{ntt_lazy,intt_lazy,modulo,multiply_operand_inplace,add_inplace}, barrett_reduce_u128
@@ -922,7 +1099,7 @@ mod proofs {
 
     // @harness id=C04 tier=quick unwind=36 timeout=3600 fs=4096 mem=24
     // @desc as c04_rotation_composition at N=32 (row length 16), where legal steps exist whose NAF contains the digit -N/2 (-11 = 1+4-16, -13 = -1+4-16) as well as +N/2 (11, 12, 13, 14, 15): both signs of the +-N/2 digit are the identity rotation and must be skipped, never forwarded; the product of the applied Galois elements equals the element of the requested step, every requested element has a default key, no panic
-    // @bounds BFV N=32, q={257,449}, t=193; Galois keys = exactly get_elts_all(); steps -15..-9 and 9..15 (every step whose NAF reaches +-16, plus their neighbours), concrete per case; apply_galois_inplace stubbed by a recorder
+    // @bounds BFV N=32, q={257,449}, t=193; Galois keys = exactly get_elts_all(); steps -13, -11 (NAF digit -16), -9, 11..15 (NAF digit +16), concrete per case; apply_galois_inplace stubbed by a recorder
     // @funcs Evaluator::rotate_internal, GaloisKeys::has_key, GaloisTool::get_elt_from_step, GaloisTool::get_elts_all, naf
     // @stubs Evaluator::apply_galois_inplace -> recorder (multiplies the applied elements, checks key presence); HeContext::get_context_data -> linear search over the literal chain; alloc::sync::Arc::drop_slow -> no-op
     #[kani::proof]
@@ -946,7 +1123,7 @@ mod proofs {
         unsafe { GAL_MOD = 64; }
         let mut step: isize = -15; let mut composed = 0;
         while step <= 15 {
-            if step <= -9 || step >= 9 {
+            if step == -13 || step == -11 || step == -9 || step >= 11 {
                 unsafe { GAL_ACC = 1; GAL_CALLS = 0; }
                 ev.rotate_internal(&mut ct, step, &gk);
                 let want = gt.get_elt_from_step(step);
@@ -966,7 +1143,7 @@ mod proofs {
     }
 
     // @harness id=C06 tier=quick unwind=14 timeout=2400 fs=4096
-    // @desc operands in a representation the operation does not accept are refused: BFV multiply with exactly one operand in NTT form, BFV add with operands in different representations, BFV mod switch of an NTT-form ciphertext
+    // @desc operands in a representation the operation does not accept are refused: BFV multiply with exactly one operand in NTT form (either one)
     // @bounds BFV N=2, q={97,113} (chain to {97}); all canonical residues; which operand is in NTT form: both cases (concrete per arm)
     // @funcs Evaluator::multiply_inplace, Evaluator::bfv_multiply, Evaluator::add_inplace, Evaluator::mod_switch_to_next_inplace
     // @expect panic:Invalid argument
@@ -975,15 +1152,34 @@ mod proofs {
     #[kani::stub(crate::context::HeContext::get_context_data, crate::context::verif_v::get_context_data_stub)]
     #[kani::stub(alloc::sync::Arc::drop_slow, crate::verif_v::arc_drop_slow_noop)]
     #[kani::stub(crate::util::polysmallmod::ntt_lazy_ps, computed_on_refused_operand)]
-    fn c06_wrong_representation_refused() {
+    fn c06_wrong_representation_refused_multiply() {
         let ctx = lits::ctx_bfv_n2_2p1();
         let ev = mk_evaluator(ctx.clone());
         let pid = *ctx.first_parms_id();
         let a = sym2::<8>(); let b = sym2::<8>();
-        let w: u8 = kani::any();
-        if w == 0 { let mut c1 = ct2(&a, pid, true, 1, 1.0); let c2 = ct2(&b, pid, false, 1, 1.0); ev.multiply_inplace(&mut c1, &c2); }
-        else if w == 1 { let mut c1 = ct2(&a, pid, false, 1, 1.0); let c2 = ct2(&b, pid, true, 1, 1.0); ev.multiply_inplace(&mut c1, &c2); }
-        else if w == 2 { let mut c1 = ct2(&a, pid, true, 1, 1.0); let c2 = ct2(&b, pid, false, 1, 1.0); ev.add_inplace(&mut c1, &c2); }
+        let w: bool = kani::any();
+        if w { let mut c1 = ct2(&a, pid, true, 1, 1.0); let c2 = ct2(&b, pid, false, 1, 1.0); ev.multiply_inplace(&mut c1, &c2); }
+        else { let mut c1 = ct2(&a, pid, false, 1, 1.0); let c2 = ct2(&b, pid, true, 1, 1.0); ev.multiply_inplace(&mut c1, &c2); }
+        kani::cover!(true, "AFTER: wrong-representation operand accepted");
+    }
+
+    // @harness id=C06 tier=quick unwind=14 timeout=2400 fs=4096
+    // @desc operands in a representation the operation does not accept are refused: BFV add with operands in different representations, BFV mod switch of an NTT-form ciphertext
+    // @bounds BFV N=2, q={97,113} (chain to {97}); all canonical residues; which operand is in NTT form: both cases (concrete per arm)
+    // @funcs Evaluator::multiply_inplace, Evaluator::bfv_multiply, Evaluator::add_inplace, Evaluator::mod_switch_to_next_inplace
+    // @expect panic:Invalid argument
+    // @stubs HeContext::get_context_data -> linear search over the literal chain (HashMap lookup outside the claim); alloc::sync::Arc::drop_slow -> no-op (memory reclamation outside the claim); polysmallmod::ntt_lazy_ps -> marker that panics 'computed on an operand that had to be refused' (the first arithmetic step of bfv_multiply: keeps the exploration bounded when a guard is missing)
+    #[kani::proof]
+    #[kani::stub(crate::context::HeContext::get_context_data, crate::context::verif_v::get_context_data_stub)]
+    #[kani::stub(alloc::sync::Arc::drop_slow, crate::verif_v::arc_drop_slow_noop)]
+    #[kani::stub(crate::util::polysmallmod::ntt_lazy_ps, computed_on_refused_operand)]
+    fn c06_wrong_representation_refused_add_modswitch() {
+        let ctx = lits::ctx_bfv_n2_2p1();
+        let ev = mk_evaluator(ctx.clone());
+        let pid = *ctx.first_parms_id();
+        let a = sym2::<8>(); let b = sym2::<8>();
+        let w: bool = kani::any();
+        if w { let mut c1 = ct2(&a, pid, true, 1, 1.0); let c2 = ct2(&b, pid, false, 1, 1.0); ev.add_inplace(&mut c1, &c2); }
         else { let mut x = ct2(&a, pid, true, 1, 1.0); ev.mod_switch_to_next_inplace(&mut x); }
         kani::cover!(true, "AFTER: wrong-representation operand accepted");
     }
